@@ -1189,14 +1189,14 @@ fn c13_end_to_end(ctx: &Ctx, sink: &mut Sink) -> Value {
     }
     let phc_args: Vec<String> = vec!["-r".into(), "PHC0".into(), "-i".into(), IFACE.into()];
     let scenarios = vec![
-        Scenario { name: "PHC configured and chronyd's reference, error bound attribute reads 12345", args: phc_args.clone(), chronyd: Some((ID_PHC, 0)), phc: PhcFile::Value(12345), preexisting: None, observe_ms: 2500, ..Scenario::blank() },
+        Scenario { name: "PHC configured and chronyd's reference, error bound attribute reads 12345", args: phc_args.clone(), chronyd: Some((ID_PHC, 0)), phc: PhcFile::Value(12345), preexisting: None, observe_ms: 2500, wait_for_synchronized: 1, ..Scenario::blank() },
         Scenario { name: "PHC configured and chronyd's reference, error bound attribute absent", args: phc_args.clone(), chronyd: Some((ID_PHC, 0)), phc: PhcFile::Absent, preexisting: None, observe_ms: 2500, ..Scenario::blank() },
-        Scenario { name: "PHC configured and chronyd's reference, error bound attribute appears after 1.5 s", args: phc_args.clone(), chronyd: Some((ID_PHC, 0)), phc: PhcFile::AppearsAfter(1500, 777), preexisting: None, observe_ms: 4500, ..Scenario::blank() },
-        Scenario { name: "PHC configured, chronyd's reference is another source, error bound attribute absent", args: phc_args.clone(), chronyd: Some((ID_OTHER, 0)), phc: PhcFile::Absent, preexisting: None, observe_ms: 2500, ..Scenario::blank() },
-        Scenario { name: "PHC not configured, chronyd's reference is the PHC", args: vec![], chronyd: Some((ID_PHC, 0)), phc: PhcFile::Value(12345), preexisting: None, observe_ms: 2500, ..Scenario::blank() },
+        Scenario { name: "PHC configured and chronyd's reference, error bound attribute appears after 1.5 s", args: phc_args.clone(), chronyd: Some((ID_PHC, 0)), phc: PhcFile::AppearsAfter(1500, 777), preexisting: None, observe_ms: 4500, wait_for_synchronized: 1, ..Scenario::blank() },
+        Scenario { name: "PHC configured, chronyd's reference is another source, error bound attribute absent", args: phc_args.clone(), chronyd: Some((ID_OTHER, 0)), phc: PhcFile::Absent, preexisting: None, observe_ms: 2500, wait_for_synchronized: 1, ..Scenario::blank() },
+        Scenario { name: "PHC not configured, chronyd's reference is the PHC", args: vec![], chronyd: Some((ID_PHC, 0)), phc: PhcFile::Value(12345), preexisting: None, observe_ms: 2500, wait_for_synchronized: 1, ..Scenario::blank() },
         // reference ids are four bytes, case and all: "phc0" is not "PHC0"
-        Scenario { name: "PHC configured as 'phc0' (lower case) and chronyd's reference is 'phc0'", args: vec!["--phc-ref-id".into(), "phc0".into(), "--phc-interface".into(), IFACE.into()], chronyd: Some((0x70686330, 0)), phc: PhcFile::Value(12345), preexisting: None, observe_ms: 2500, ..Scenario::blank() },
-        Scenario { name: "PHC configured as 'phc0' (lower case), chronyd's reference is 'PHC0' (another source)", args: vec!["-r".into(), "phc0".into(), "-i".into(), IFACE.into()], chronyd: Some((ID_PHC, 0)), phc: PhcFile::Absent, preexisting: None, observe_ms: 2500, ..Scenario::blank() },
+        Scenario { name: "PHC configured as 'phc0' (lower case) and chronyd's reference is 'phc0'", args: vec!["--phc-ref-id".into(), "phc0".into(), "--phc-interface".into(), IFACE.into()], chronyd: Some((0x70686330, 0)), phc: PhcFile::Value(12345), preexisting: None, observe_ms: 2500, wait_for_synchronized: 1, ..Scenario::blank() },
+        Scenario { name: "PHC configured as 'phc0' (lower case), chronyd's reference is 'PHC0' (another source)", args: vec!["-r".into(), "phc0".into(), "-i".into(), IFACE.into()], chronyd: Some((ID_PHC, 0)), phc: PhcFile::Absent, preexisting: None, observe_ms: 2500, wait_for_synchronized: 1, ..Scenario::blank() },
     ];
     let results: Vec<Result<Value, String>> = std::thread::scope(|s| {
         let hs: Vec<_> = scenarios.iter().map(|sc| { let bin = bin.clone(); s.spawn(move || e2e::run_scenario(&bin, sc)) }).collect();
@@ -1271,10 +1271,10 @@ fn c12_end_to_end(ctx: &Ctx, sink: &mut Sink) -> Value {
         return json!({"skipped": format!("release binary {bin} not built")});
     }
     let scenarios = vec![
-        Scenario { name: "every reply 20 ms late", chronyd: Some((ID_OTHER, 0)), tag_replies: true, reply_delays_ms: vec![20], observe_ms: 2500, ..Scenario::blank() },
-        Scenario { name: "every reply 60 ms late", chronyd: Some((ID_OTHER, 0)), tag_replies: true, reply_delays_ms: vec![60], observe_ms: 2500, ..Scenario::blank() },
-        Scenario { name: "every reply 300 ms late", chronyd: Some((ID_OTHER, 0)), tag_replies: true, reply_delays_ms: vec![300], observe_ms: 3500, ..Scenario::blank() },
-        Scenario { name: "first reply 1.3 s late, the others prompt", chronyd: Some((ID_OTHER, 0)), tag_replies: true, reply_delays_ms: vec![1300, 0], observe_ms: 4500, ..Scenario::blank() },
+        Scenario { name: "every reply 20 ms late", chronyd: Some((ID_OTHER, 0)), tag_replies: true, reply_delays_ms: vec![20], observe_ms: 2500, wait_for_synchronized: 2, ..Scenario::blank() },
+        Scenario { name: "every reply 60 ms late", chronyd: Some((ID_OTHER, 0)), tag_replies: true, reply_delays_ms: vec![60], observe_ms: 2500, wait_for_synchronized: 2, ..Scenario::blank() },
+        Scenario { name: "every reply 300 ms late", chronyd: Some((ID_OTHER, 0)), tag_replies: true, reply_delays_ms: vec![300], observe_ms: 3500, wait_for_synchronized: 2, ..Scenario::blank() },
+        Scenario { name: "first reply 1.3 s late, the others prompt", chronyd: Some((ID_OTHER, 0)), tag_replies: true, reply_delays_ms: vec![1300, 0], observe_ms: 4500, wait_for_synchronized: 2, ..Scenario::blank() },
         Scenario { name: "chronyd on UDP 127.0.0.1:323 only, first reply 1.3 s late", chronyd: Some((ID_OTHER, 0)), tag_replies: true, reply_delays_ms: vec![1300, 0], udp_only: true, observe_ms: 4500, ..Scenario::blank() },
     ];
     let results: Vec<Result<Value, String>> = std::thread::scope(|s| {
